@@ -130,7 +130,7 @@ class World:
 
     def gen_value(self, rng, t, ident, T, f, nonnull=False):
         if self.garbage_p and rng.random() < self.garbage_p:
-            return self.garbage(rng)
+            return self.garbage(rng, named_of(t))
         if t[0] == "NN":
             return self.gen_value(rng, t[1], ident, T, f, True)
         if not nonnull and rng.random() < self.P_NULL:
